@@ -84,6 +84,10 @@ def groups(tier):
     # so the rule is built for the ratio the steps are taken on
     out.append(('contract:make_exact', ('dep', 'C10', 'run_exact', (), {})))
     out.append(('rules-concrete', ('rconc',)))
+    # "the rule returned for that configuration" comes out of the process-wide cache: cache-base-case proves the rule that
+    # rule() computes; that a hit returns the rule of exactly this (ratio, parity, terms) is the cache invariant, whose
+    # contract (C09: the only store writes pinv(_fd_matrix(key)) under the exact key) is discharged here as well
+    out.append(('contract:rule-cache', ('dep', 'C09', 'run_ci', (), {})))
     return out
 
 
@@ -538,6 +542,11 @@ def replay_case(ob):
     if ob['name'].startswith('rules-concrete/'):
         mm = re.search(r'\[(\w+),n=1', ob['name'])
         return dict(kind='C06.exact', method=mm.group(1) if mm else 'central', n=1, order=2, step_ratios=[2.0, 1.6], x=0.3, h=0.5, history=[], scan=True)
+    if ob['name'].startswith('contract:rule-cache/'):
+        # the same process asks for rules at nearby but different step ratios (and at one ratio twice): each must be exact
+        # at its own ratio, whatever the cache holds by then
+        return dict(kind='C06.exact', method='forward', n=2, order=4, x=0.3, h=0.5, history=[], keep_cache=True,
+                    step_ratios=[2.0, 2.0000004, 2.0, 1.6, 1.6000003, 1.60000000004, 3.0, 3.00002, 1.6])
     if ob['name'].startswith('contract:make_exact/'):
         return dict(kind='C06.exact', method='forward', n=2, order=2, step_ratios=[2 ** 0.5, 1.23456789, 3.0 ** 0.5], x=0.3, h=0.5, history=[])
     mm = re.search(r'cfg\[(\w+),n=(\d+)\]/order=(\d+)/', ob['name'])
